@@ -7,7 +7,7 @@ import subprocess
 
 import vlib
 
-GOALS = ["A01", "A02", "A03"] + ["G%02d" % i for i in range(4, 32)]
+GOALS = ["A%02d" % i for i in range(1, 9)] + ["G%02d" % i for i in range(9, 32)]
 # slices: (name, constants overriding the base); every goal is tried in every applicable slice
 BASE = dict(NReq=3, NOrig=1, MaxDial=3, MaxTick=0, AsBuilt="{}", MaxIdles="{1}", IdleTimeouts="{0}",
             Protos="{TRUE, FALSE}", Faults="AllFaults", Spurious="FALSE", AllowDrop="FALSE")
@@ -16,7 +16,7 @@ SLICES = {
     "nocap": dict(Caps="{FALSE}"),
 }
 ONLY = {  # goals that exist in one slice only (background continuation needs continue_after_preemption, ...)
-    "G06": ["cap"], "G08": ["cap"], "G16": ["cap"], "G18": ["cap"], "G19": ["cap"], "G20": ["cap"], "G17": ["nocap"],
+    "A06": ["cap"], "A08": ["cap"], "A07": ["nocap"], "G16": ["cap"], "G18": ["cap"], "G19": ["cap"], "G20": ["cap"], "G17": ["nocap"],
 }
 SPECIAL = {
     "G27": dict(MaxTick=1, IdleTimeouts="{2}", Protos="{FALSE}", MaxIdles="{2}", Faults="NoFaults"),
